@@ -1007,7 +1007,7 @@ class Cookies(Suite):
     reserved name -> KeyError) must raise and emit nothing."""
 
     name = 'cookies'
-    budget = {'quick': 4000, 'thorough': 120000}
+    budget = {'quick': 4000, 'thorough': 80000}
 
     def strategy(self, tier):
         op = st.one_of(
@@ -1154,7 +1154,7 @@ class UriHelpers(Suite):
     filename and the plain filename fallback is ASCII."""
 
     name = 'uri_helpers'
-    budget = {'quick': 4000, 'thorough': 120000}
+    budget = {'quick': 4000, 'thorough': 80000}
 
     def strategy(self, tier):
         loc = st.builds(lambda k, v: {'kind': k, 'value': v}, st.sampled_from(['location', 'content_location']), _utext)
